@@ -2,7 +2,7 @@
    Specification: Trace/Doc.v (doc_schema: the mapping of lib.rs and of every option's doc comment,
    by recursion on a description of the type). Models: Trace/Tracer.v (from_samples, to_field,
    overwrites). from_type of the crate is compared with doc_schema inside Coq on every case. *)
-From Verif Require Import Tracer Doc.
+From Verif Require Import Tracer Doc CoerceTable CoerceTable_proofs TracerTablesSpec.
 Local Open Scope nat_scope.
 
 (* Full-strength statements (kept visible); judged per case by RunC08.oracle / corr *)
@@ -71,5 +71,22 @@ Example C08_example :
         mkSF (b "m") (SMap (mkSF (b "key") (SPrim (PStr true)) false None) (mkSF (b "value") (SPrim PFloat64) false None)) false None].
 Proof. vm_compute. reflexivity. Qed.
 
+(* the model's coerce_core IS the match of coerce_primitive_type in /repo's tracer.rs: the arms are regenerated
+   from the source on every run (Gen/TracerTables.v) and read as a first-match table *)
+Theorem C08_coerce_arms_match_model : forall cn ts lg prev nl curr,
+  CoerceTable.first_match TracerTables.coerce_arms cn ts lg prev nl curr = Some (coerce_core cn ts lg prev nl curr).
+Proof. exact CoerceTable_proofs.coerce_table_is_model. Qed.
+
+(* the serde-call -> transition tables of both tracers (regenerated from from_samples/mod.rs and from_type/mod.rs)
+   are the ones the model was written against; every leaf call makes exactly one primitive transition naming
+   the same data type in both tracers, and that is the model's transition *)
+Theorem C08_leaf_calls_match_model :
+  forwarders_ok = true /\ sample_calls_ok = true /\ type_calls_ok = true /\ leaf_tables_ok = true /\
+  forall o d t, Forall (fun r : String.string * String.string * Value * PT =>
+                          let '(_, _, v, p) := r in trace o d v t = ensure_prim o p t) leaf_methods.
+Proof. exact leaf_calls_match_model. Qed.
+
 Print Assumptions C08_leaf_tracers_agree.
 Print Assumptions C08_overwrite_replaces.
+Print Assumptions C08_coerce_arms_match_model.
+Print Assumptions C08_leaf_calls_match_model.
